@@ -41,7 +41,7 @@ SUBSETS = [['duration', 'Time', 'Title', 'Pos'], ['Id', 'Prio', 'Range', 'Artist
 ENTRY_CMDS = ['Queue', 'Find', 'ListAllIn', 'GetPlaylist', 'CurrentSong']
 
 def instances(tier, seed):
-    out = []
+    out = [{'kind': 'wire', 'cmd': 'Queue'}, {'kind': 'wire', 'cmd': 'Find'}]
     if tier == 'quick':
         others = ['Find', 'ListAllIn', 'GetPlaylist']
         for i, sub in enumerate(SUBSETS):
@@ -202,10 +202,74 @@ def tag_name(t):
         return bytes(as_items(t.fields[0])).decode()
     return dict(TAGS)[t.variant]
 
+PRIOR_REPLIES = [b'volume: 5\nstate: play\ntime: 12:240\nelapsed: 12.5\nduration: 240.000\naudio: 44100:16:2\nOK\n',
+                 b'file: x\ntitle: lower\nartist: lower\nTIME: 7\nformat: f\nlast-modified: 2020-01-01T00:00:00Z\npos: 9\nid: 9\nOK\n']
+WIRE_LISTING = {'Queue': b'file: a.mp3\nLast-Modified: 2021-02-03T04:05:06Z\nFormat: 44100:16:2\nTime: 240\nduration: 240.500\nTitle: T\nArtist: A\nArtist: B\nPos: 3\nId: 17\nOK\n',
+                'Find': b'file: a.mp3\nLast-Modified: 2021-02-03T04:05:06Z\nFormat: 44100:16:2\nTime: 240\nTitle: T\nArtist: A\nfile: b.mp3\nTime: 7\nOK\n'}
+
+def run_wire(P, res, payload):
+    """the listing is the second / third reply on a connection that has already decoded replies using the same field names in other
+    letter cases (the connection interns field names): it must decode exactly like on a fresh connection"""
+    from models_io import Transport
+    from props.conn_common import T, set_cap
+    cmd = payload['cmd']; flav = 'sync'
+    listing = WIRE_LISTING[cmd]
+    def harness(I):
+        set_cap(I, 4096)
+        nprior = 1 + I.ctx.choose(2, 'prior')
+        prior = b''.join(PRIOR_REPLIES[:nprior])
+        t = Transport(list(b'OK MPD 0.23.5\n' + prior + listing), cuts=[14], eof=True)
+        r = I.call_repo('mpd_protocol::connection::Connection::<%s>::connect' % T, [t])
+        conn = ValLoc(r.fields[0])
+        frame = None
+        for _ in range(nprior + 1):
+            x = I.call_repo('mpd_protocol::connection::Connection::<%s>::receive' % T, [Ref(conn)])
+            if x.variant != 'Ok' or x.fields[0].variant != 'Some':
+                raise InternalError('the harness stream is not decoded: %r' % (x,))
+            frame = x.fields[0].fields[0].field('frames').v[0]
+        I._nprior = nprior
+        return respond(I, P, cmd, frame)
+    for pr in explore(P, harness):
+        res.paths += 1
+        ctx = pr.ctx
+        nprior = getattr(pr.interp, '_nprior', 1)
+        rec = {'cmd': cmd, 'wire': hexs(b''.join(PRIOR_REPLIES[:nprior]) + listing), 'skip': nprior}
+        if pr.kind == 'panic':
+            res.violations.append({'what': 'decoding the listing panics: ' + pr.error.msg[:100], 'input': rec}); continue
+        r = pr.value
+        bad = None
+        if r.variant != 'Ok':
+            bad = 'well-formed listing rejected after earlier replies on the same connection: %r' % (r.fields[0],)
+        else:
+            want = []
+            for sng in ref_decode(listing):
+                sc = {k: v.encode('latin1') for k, v in sng['scalars'].items()}
+                want.append({'url': sng['url'].encode('latin1'), 'pos': sc.get('Pos'), 'id': sc.get('Id'), 'prio': sc.get('Prio'), 'range': sc.get('Range'), 'format': sc.get('Format'),
+                             'lm': sc.get('Last-Modified'), 'dur': sc.get('duration', sc.get('Time')), 'tags': {k: [x.encode('latin1') for x in v] for k, v in sng['tags'].items()}})
+            got = list(r.fields[0].v)
+            if len(got) != len(want):
+                bad = '%d songs decoded, %d file entries listed' % (len(got), len(want))
+            else:
+                for g, w in zip(got, want):
+                    bad = check_song(ctx, g.field('song'), w, g) if cmd == 'Queue' else check_song(ctx, g, w)
+                    if bad:
+                        bad += ' (the listing was the reply number %d on its connection)' % (nprior + 1)
+                        break
+        res.cls('listing on a used connection', nontrivial=True)
+        if bad:
+            res.violations.append({'what': bad, 'input': rec})
+        if len(res.samples) < 1:
+            res.samples.append({'cmd': cmd, 'earlier replies': nprior, 'listing': listing.decode()})
+        res.take_stats(ctx.stats); ctx.stats.__init__()
+
 def run_instance(payload):
     P = engine.load_program()
     res = Result(str(payload))
     t0 = time.time()
+    if payload.get('kind') == 'wire':
+        run_wire(P, res, payload)
+        res.wall_s = time.time() - t0
+        return res.to_dict()
     cmd = payload['cmd']
     MENU[0] = payload.get('menu', 1 if payload['entries'] * payload['per'] >= 3 else 2)
     def harness(I):
@@ -320,7 +384,11 @@ def lines_match(got, want):
 def replay(rec):
     inp = rec.get('input') or rec
     wire = unhex(inp['wire'])
-    out = run_replay(['resp', inp['cmd'], hexs(wire)])
+    if inp.get('skip'):
+        out = run_replay(['resp', inp['cmd'], hexs(wire), 'skip=%d' % inp['skip']])
+        wire = WIRE_LISTING[inp['cmd']]
+    else:
+        out = run_replay(['resp', inp['cmd'], hexs(wire)])
     if 'panic' in out:
         return True, 'native run panics'
     if 'err' in out:
@@ -332,7 +400,7 @@ def replay(rec):
     return (not lines_match(got, want)), 'native %s / reference %s' % (got[:3], want[:3])
 
 DESCR = {}
-REQUIRED_CLASSES = ['listing with 0 songs', 'listing with 1 songs', 'listing with 2 songs']
+REQUIRED_CLASSES = ['listing on a used connection', 'listing with 0 songs', 'listing with 1 songs', 'listing with 2 songs']
 EXPLANATION = ('Bounded symbolic execution of the real MIR of the song listing decoders on frames encoding abstract listings generated under symbolic choices (entry kinds, '
                'attribute kinds and order, numbers of any in-range magnitude); on every feasible path the decoded songs are compared with a reference decoder of the abstract '
                'listing (durations against exact decimal arithmetic, +-1 ns); counterexample listings are replayed natively through the real parser and the typed command')
